@@ -30,7 +30,7 @@ class C19(Prop):
     def configure(self, rng, tier):
         cfg = swarm_config(rng, base={"listener": 0.8, "clone": 0.0, "reference": 3.0, "remove": 3.5,
                                       "bulk_remove": 2.0, "bulk_disconnect": 1.5, "top": 1.2, "name": 2.0,
-                                      "data": 1.5, "ns": 0.2, "policy": 0.1})
+                                      "data": 1.5, "ns": 0.2, "policy": 0.1, "adopt": 0.4})
         cfg["veto"] = rng.random() < 0.35
         cfg["differential"] = (not cfg["veto"]) and rng.random() < 0.5
         return cfg
